@@ -95,9 +95,20 @@ func pow(a int64, n int) int64 {
 // seqTokens returns the i-th token sequence in length-then-lexicographic
 // order over the alphabet, lengths 1..maxLen.
 func seqTokens(i int64, maxLen int) []string {
+	return seqTokensOver(alphabet, i, 1, maxLen)
+}
+
+// coreAlphabet is the half of the alphabet the thorough tier builds its
+// four-token sequences from.
+var coreAlphabet = []string{
+	"func", "(", ")", "{", "}", "[", "]", ":=", "=", ",", ".", ":", "+",
+	"if", "for", "range", "return", "type", "struct", "map", "int", "x", "1", `"s"`,
+}
+
+func seqTokensOver(alphabet []string, i int64, minLen, maxLen int) []string {
 	a := int64(len(alphabet))
 
-	n := 1
+	n := minLen
 	for ; n <= maxLen; n++ {
 		c := pow(a, n)
 		if i < c {
@@ -136,12 +147,21 @@ const (
 var formNames = []string{"fragment", "in-main", "token-per-line"}
 
 func seqPhase(name string, driver int, maxLen int, forms []int) phase {
+	return seqPhaseOver(name, driver, alphabet, 1, maxLen, forms)
+}
+
+func seqPhaseOver(name string, driver int, alpha []string, minLen, maxLen int, forms []int) phase {
 	nf := int64(len(forms))
 
+	var count int64
+	for n := minLen; n <= maxLen; n++ {
+		count += pow(int64(len(alpha)), n)
+	}
+
 	return phase{
-		name: name, driver: driver, n: seqCount(maxLen) * nf,
+		name: name, driver: driver, n: count * nf,
 		text: func(i int64) (string, string, int) {
-			toks := seqTokens(i/nf, maxLen)
+			toks := seqTokensOver(alpha, i/nf, minLen, maxLen)
 			form := forms[i%nf]
 			desc := fmt.Sprintf("tokens %q as %s", toks, formNames[form])
 
@@ -182,7 +202,7 @@ func (e edit) String() string {
 // singleEdits lists every single-token edit of a token list: per position
 // deletion, duplication, swap with the next token and (when subs) substitution
 // by each alphabet token that differs from it.
-func singleEdits(toks []string, subs bool, from, to int) []edit {
+func singleEdits(toks []string, subs []int, from, to int) []edit {
 	var out []edit
 
 	for p := range toks {
@@ -196,11 +216,9 @@ func singleEdits(toks []string, subs bool, from, to int) []edit {
 			out = append(out, edit{edSwap, p, 0})
 		}
 
-		if subs {
-			for a, t := range alphabet {
-				if t != toks[p] {
-					out = append(out, edit{edSub, p, a})
-				}
+		for _, a := range subs {
+			if alphabet[a] != toks[p] {
+				out = append(out, edit{edSub, p, a})
 			}
 		}
 	}
@@ -246,8 +264,33 @@ type seedEdit struct {
 	e    edit
 }
 
-// editPhase enumerates single edits of every seed (subs: with substitutions).
-func editPhase(name string, driver int, subs bool) phase {
+// allTokens / quickSubs: the alphabet tokens a substitution edit may put in. The
+// quick tier leaves out the two names of the fmt package: used as a value they
+// block the interpreter (a timeout, which the statement allows, but each one
+// costs a worker).
+func allTokens() []int {
+	out := make([]int, len(alphabet))
+	for i := range out {
+		out[i] = i
+	}
+
+	return out
+}
+
+func quickSubs() []int {
+	var out []int
+
+	for i, t := range alphabet {
+		if t != "fmt" && t != "Println" {
+			out = append(out, i)
+		}
+	}
+
+	return out
+}
+
+// editPhase enumerates single edits of every seed (subs: the substitution tokens).
+func editPhase(name string, driver int, subs []int) phase {
 	var all []seedEdit
 
 	toks := make([][]string, len(seedText))
@@ -274,7 +317,7 @@ func editPhase(name string, driver int, subs bool) phase {
 // edit (delete/duplicate/swap) followed by any structural edit anywhere, or
 // (subs) by any edit including substitutions within `window` tokens of the
 // first edit's position.
-func pairPhase(name string, driver int, subs bool, window int) phase {
+func pairPhase(name string, driver int, subs []int, window int) phase {
 	type first struct {
 		seed  int
 		e     edit
@@ -291,15 +334,15 @@ func pairPhase(name string, driver int, subs bool, window int) phase {
 	for _, s := range coreSeeds {
 		base := seedTokens(seedText[s])
 
-		for _, e1 := range singleEdits(base, false, 0, len(base)) {
+		for _, e1 := range singleEdits(base, nil, 0, len(base)) {
 			t1 := apply(base, e1)
 
 			var n int
 
-			if subs {
-				n = len(singleEdits(t1, true, e1.pos-window, e1.pos+window))
+			if subs != nil {
+				n = len(singleEdits(t1, subs, e1.pos-window, e1.pos+window))
 			} else {
-				n = len(singleEdits(t1, false, 0, len(t1)))
+				n = len(singleEdits(t1, nil, 0, len(t1)))
 			}
 
 			firsts = append(firsts, first{s, e1, t1, total, int64(n)})
@@ -323,10 +366,10 @@ func pairPhase(name string, driver int, subs bool, window int) phase {
 			f := firsts[lo]
 
 			var seconds []edit
-			if subs {
-				seconds = singleEdits(f.toks, true, f.e.pos-window, f.e.pos+window)
+			if subs != nil {
+				seconds = singleEdits(f.toks, subs, f.e.pos-window, f.e.pos+window)
 			} else {
-				seconds = singleEdits(f.toks, false, 0, len(f.toks))
+				seconds = singleEdits(f.toks, nil, 0, len(f.toks))
 			}
 
 			e2 := seconds[i-f.start]
@@ -383,10 +426,10 @@ func allPhases(thorough bool) []phase {
 			seqPhase("sequences<=2/file", drvRun, 2, both),
 			seqPhase("sequences<=2/pipe", drvPipe, 2, both),
 			seqPhase("sequences<=2/console", drvRepl, 2, console),
-			editPhase("edits1/server", drvSrv, true),
-			editPhase("edits1-structural/file", drvRun, false),
-			editPhase("edits1-structural/pipe", drvPipe, false),
-			editPhase("edits1-structural/console", drvRepl, false),
+			editPhase("edits1-no-fmt-substitution/server", drvSrv, quickSubs()),
+			editPhase("edits1-structural/file", drvRun, nil),
+			editPhase("edits1-structural/pipe", drvPipe, nil),
+			editPhase("edits1-structural/console", drvRepl, nil),
 		}
 	}
 
@@ -395,16 +438,18 @@ func allPhases(thorough bool) []phase {
 		seedPhase("seeds/file", drvRun),
 		seedPhase("seeds/pipe", drvPipe),
 		seedPhase("seeds/console", drvRepl),
-		seqPhase("sequences<=4/server", drvSrv, 4, both),
+		seqPhase("sequences<=3/server", drvSrv, 3, both),
+		seqPhaseOver("sequences=4-core-alphabet/server", drvSrv, coreAlphabet, 4, 4, both),
+		seqPhaseOver("sequences=4-core-alphabet/file", drvRun, coreAlphabet, 4, 4, []int{formInMain}),
 		seqPhase("sequences<=3/file", drvRun, 3, both),
 		seqPhase("sequences<=3/pipe", drvPipe, 3, []int{formFragment}),
 		seqPhase("sequences<=3/console", drvRepl, 3, console),
-		editPhase("edits1/server", drvSrv, true),
-		editPhase("edits1/file", drvRun, true),
-		editPhase("edits1/pipe", drvPipe, true),
-		editPhase("edits1/console", drvRepl, true),
-		pairPhase("edits2-structural/server", drvSrv, false, 0),
-		pairPhase("edits2-local/server", drvSrv, true, 3),
-		pairPhase("edits2-structural/file", drvRun, false, 0),
+		editPhase("edits1/server", drvSrv, allTokens()),
+		editPhase("edits1/file", drvRun, allTokens()),
+		editPhase("edits1/pipe", drvPipe, allTokens()),
+		editPhase("edits1/console", drvRepl, allTokens()),
+		pairPhase("edits2-structural/server", drvSrv, nil, 0),
+		pairPhase("edits2-local/server", drvSrv, quickSubs(), 3),
+		pairPhase("edits2-structural/file", drvRun, nil, 0),
 	}
 }
